@@ -4,10 +4,11 @@
   * the roles the emitted problems give to the two sides (premises of a direction are axioms,
     the other side's public definitions and constraints are the conjectures), via the
     decomposition theorems of C19;
-  * two kernel-checked counterexamples showing that the property is FALSE on the unchanged tree
-    (known findings): an output predicate absent from one program gets no completed definition
-    (forward direction emits no problem at all), and clashing private predicate names are renamed
-    onto each other.
+  * a kernel-checked counterexample showing that the property is FALSE on the unchanged tree
+    (known finding): clashing private predicate names are renamed onto each other. A second defect
+    was repaired (`fix:` 82641ae): an output predicate absent from one program got no completed
+    definition, the forward direction emitted no problem at all; it is now completed to false
+    (`missing_output_now_refutable`), and the theorems carry the matching clause `OutputsEmpty`.
   * `external_refutes_programs` (restricted form of the model-theoretic statement): for a task that
     compares two programs, without placeholders and without a proof outline, tightness not
     bypassed, every flag combination: some emitted problem is refuted by a classical
@@ -57,30 +58,25 @@ import AnthemModel.Proofs.PrivateUnique
 namespace Anthem.C02
 open Asp
 
-/-- **C02, restricted form** (see the header). `NoSymbolConflictExt`: `rename_conflicting_symbols`
-    is the identity on the two assembled problems (cf. the C03 known finding). The statement is
-    about the interpretation restricted to each program's vocabulary, so an output predicate that
-    is absent from a program does not constrain that side (the `missing_output` finding below). -/
-theorem external_refutes_programs (t : ExternalTask) (PL : Program) (hspec : t.specification = .inl PL)
-    (hph : t.userGuide.placeholders = []) (hpo : t.proofOutline = []) (hbyp : t.bypassTightness = false)
-    (fuel : Nat) (ps : List Problem) (h : externalProblems t fuel = .ok ps) :
-    ∃ ΓL ΓR, theoryTranslate t [] fuel PL = .ok ΓL ∧ theoryTranslate t [] fuel t.program = .ok ΓR ∧
-      (NoSymbolConflictExt t ΓL ΓR → ∀ (J : Interp) (ρ : Asg),
-        ((∃ P ∈ ps, Refutes J ρ P) ↔
-          (∀ a ∈ t.userGuide.formulas, a.role = .assumption → sat J a.formula ρ) ∧
-          (((t.direction = .universal ∨ t.direction = .forward) ∧
-              Stable PL t.userGuide.inputs (restrictTo (ext PL.preds t.userGuide.inputs) J.pred) J.fc ∧
-              (∀ a ∈ rightSide t ΓR, a.role = .assumption → sat J a.formula ρ) ∧
-              ¬ Stable t.program t.userGuide.inputs
-                (restrictTo (ext t.program.preds t.userGuide.inputs)
-                  (renamedInterp (t.specPrivate.filter (· ∈ t.progPrivate)) J.pred)) J.fc) ∨
-           ((t.direction = .universal ∨ t.direction = .backward) ∧
-              Stable t.program t.userGuide.inputs
-                (restrictTo (ext t.program.preds t.userGuide.inputs)
-                  (renamedInterp (t.specPrivate.filter (· ∈ t.progPrivate)) J.pred)) J.fc ∧
-              (∀ a ∈ leftSide t ΓL, a.role = .assumption → sat J a.formula ρ) ∧
-              ¬ Stable PL t.userGuide.inputs (restrictTo (ext PL.preds t.userGuide.inputs) J.pred) J.fc)))) :=
-  Anthem.external_refutes_programs t PL hspec hph hpo hbyp fuel ps h
+/-- the program side produces `J`: `J`, read on the program's vocabulary (clashing private predicates
+    through their `_p` copies) with the placeholders replaced by the values `J` gives them, is a stable
+    model of the program with `J`'s input facts, and the output predicates the program does not mention
+    are empty -/
+def ProducesR (t : ExternalTask) (J : Interp) : Prop :=
+  Stable (t.program.substSym (phNu t.phMap J.fc)) t.userGuide.inputs
+    (restrictTo (ext t.program.preds t.userGuide.inputs)
+      (renamedInterp (t.specPrivate.filter (· ∈ t.progPrivate)) J.pred)) J.fc ∧
+  OutputsEmpty t t.program (renamedInterp (t.specPrivate.filter (· ∈ t.progPrivate)) J.pred)
+
+/-- the same for a specification program `PL` -/
+def ProducesL (t : ExternalTask) (PL : Program) (J : Interp) : Prop :=
+  Stable (PL.substSym (phNu t.phMap J.fc)) t.userGuide.inputs (restrictTo (ext PL.preds t.userGuide.inputs) J.pred) J.fc ∧
+  OutputsEmpty t PL J.pred
+
+/-- without placeholders the programs are read as they are -/
+theorem no_placeholders (t : ExternalTask) (hph : t.userGuide.placeholders = []) (fc : FcI) (p : Program) :
+    p.substSym (phNu t.phMap fc) = p := by
+  rw [phMap_nil t hph, phNu_nil]; exact Program.substSym_id p
 
 /-- **C02, specification against program** (no placeholders, no proof outline, tightness not
     bypassed; every direction, decomposition, simplify and eq-break setting; every role/direction
@@ -95,22 +91,25 @@ theorem external_refutes_specification (t : ExternalTask) (S : Specification) (h
           (∀ a ∈ S, lStable a = true → sat J a.formula ρ) ∧
           (∀ a ∈ rightSide t ΓR, a.role = .assumption → sat J a.formula ρ) ∧
           (((t.direction = .universal ∨ t.direction = .forward) ∧
-              (∀ a ∈ S, lFwdPrem a = true → sat J a.formula ρ) ∧
-              ¬ Stable t.program t.userGuide.inputs
-                (restrictTo (ext t.program.preds t.userGuide.inputs)
-                  (renamedInterp (t.specPrivate.filter (· ∈ t.progPrivate)) J.pred)) J.fc) ∨
+              (∀ a ∈ S, lFwdPrem a = true → sat J a.formula ρ) ∧ ¬ ProducesR t J) ∨
            ((t.direction = .universal ∨ t.direction = .backward) ∧
-              Stable t.program t.userGuide.inputs
-                (restrictTo (ext t.program.preds t.userGuide.inputs)
-                  (renamedInterp (t.specPrivate.filter (· ∈ t.progPrivate)) J.pred)) J.fc ∧
-              ∃ a ∈ S, lBwdConc a = true ∧ ¬ sat J a.formula ρ)))) :=
-  Anthem.external_refutes_spec t S hspec hph hpo hbyp fuel ps h
+              ProducesR t J ∧ ∃ a ∈ S, lBwdConc a = true ∧ ¬ sat J a.formula ρ)))) := by
+  obtain ⟨ΓR, hR, hmain⟩ := Anthem.external_refutes_spec t S hspec hph hpo hbyp fuel ps h
+  refine ⟨ΓR, hR, fun hnc J ρ => ?_⟩
+  have := hmain hnc J ρ
+  unfold ProducesR
+  rw [no_placeholders t hph]
+  exact this
 
-/-- **C02 with placeholders, program against program** (no proof outline, tightness not bypassed):
-    `external_refutes_programs` for user guides that declare placeholders of any sort. `t.phMap` is the
-    placeholder map, `phNu t.phMap J.fc s` the precomputed term `J` assigns to the symbolic constant `s`
-    (`s` itself when it is no placeholder). -/
-theorem external_refutes_programs_with_placeholders (t : ExternalTask) (PL : Program)
+/-- **C02, program against program** (placeholders of any sort allowed; no proof outline, tightness not
+    bypassed; every direction, decomposition, simplify and eq-break setting). Some emitted problem is
+    refuted by a classical interpretation `J` iff `J` satisfies the user-guide assumptions and, in a
+    requested direction, one program produces `J` (stable model on that program's vocabulary with `J`'s
+    input facts and placeholder values, absent output predicates empty), `J` satisfies the completed
+    definitions of the other program's private predicates, and the other program does not produce `J`.
+    `t.phMap` is the placeholder map, `phNu t.phMap J.fc s` the precomputed term `J` assigns to the
+    symbolic constant `s` (`s` itself when it is no placeholder: `no_placeholders`). -/
+theorem external_refutes_programs (t : ExternalTask) (PL : Program)
     (hspec : t.specification = .inl PL) (hpo : t.proofOutline = []) (hbyp : t.bypassTightness = false)
     (fuel : Nat) (ps : List Problem) (h : externalProblems t fuel = .ok ps) :
     ∃ ΓL ΓR, theoryTranslate t t.phMap fuel PL = .ok ΓL ∧ theoryTranslate t t.phMap fuel t.program = .ok ΓR ∧
@@ -118,19 +117,9 @@ theorem external_refutes_programs_with_placeholders (t : ExternalTask) (PL : Pro
         ((∃ P ∈ ps, Refutes J ρ P) ↔
           (∀ a ∈ t.userGuide.formulas, a.role = .assumption → sat J (a.formula.replacePlaceholders t.phMap) ρ) ∧
           (((t.direction = .universal ∨ t.direction = .forward) ∧
-              Stable (PL.substSym (phNu t.phMap J.fc)) t.userGuide.inputs
-                (restrictTo (ext PL.preds t.userGuide.inputs) J.pred) J.fc ∧
-              (∀ a ∈ rightSide t ΓR, a.role = .assumption → sat J a.formula ρ) ∧
-              ¬ Stable (t.program.substSym (phNu t.phMap J.fc)) t.userGuide.inputs
-                (restrictTo (ext t.program.preds t.userGuide.inputs)
-                  (renamedInterp (t.specPrivate.filter (· ∈ t.progPrivate)) J.pred)) J.fc) ∨
+              ProducesL t PL J ∧ (∀ a ∈ rightSide t ΓR, a.role = .assumption → sat J a.formula ρ) ∧ ¬ ProducesR t J) ∨
            ((t.direction = .universal ∨ t.direction = .backward) ∧
-              Stable (t.program.substSym (phNu t.phMap J.fc)) t.userGuide.inputs
-                (restrictTo (ext t.program.preds t.userGuide.inputs)
-                  (renamedInterp (t.specPrivate.filter (· ∈ t.progPrivate)) J.pred)) J.fc ∧
-              (∀ a ∈ leftSide t ΓL, a.role = .assumption → sat J a.formula ρ) ∧
-              ¬ Stable (PL.substSym (phNu t.phMap J.fc)) t.userGuide.inputs
-                (restrictTo (ext PL.preds t.userGuide.inputs) J.pred) J.fc)))) :=
+              ProducesR t J ∧ (∀ a ∈ leftSide t ΓL, a.role = .assumption → sat J a.formula ρ) ∧ ¬ ProducesL t PL J)))) :=
   Anthem.external_refutes_programs_ph t PL hspec hpo hbyp fuel ps h
 
 /-- **C02 with placeholders, specification against program.** -/
@@ -145,15 +134,9 @@ theorem external_refutes_specification_with_placeholders (t : ExternalTask) (S :
           (∀ a ∈ S, lStable a = true → sat J (a.formula.replacePlaceholders t.phMap) ρ) ∧
           (∀ a ∈ rightSide t ΓR, a.role = .assumption → sat J a.formula ρ) ∧
           (((t.direction = .universal ∨ t.direction = .forward) ∧
-              (∀ a ∈ S, lFwdPrem a = true → sat J (a.formula.replacePlaceholders t.phMap) ρ) ∧
-              ¬ Stable (t.program.substSym (phNu t.phMap J.fc)) t.userGuide.inputs
-                (restrictTo (ext t.program.preds t.userGuide.inputs)
-                  (renamedInterp (t.specPrivate.filter (· ∈ t.progPrivate)) J.pred)) J.fc) ∨
+              (∀ a ∈ S, lFwdPrem a = true → sat J (a.formula.replacePlaceholders t.phMap) ρ) ∧ ¬ ProducesR t J) ∨
            ((t.direction = .universal ∨ t.direction = .backward) ∧
-              Stable (t.program.substSym (phNu t.phMap J.fc)) t.userGuide.inputs
-                (restrictTo (ext t.program.preds t.userGuide.inputs)
-                  (renamedInterp (t.specPrivate.filter (· ∈ t.progPrivate)) J.pred)) J.fc ∧
-              ∃ a ∈ S, lBwdConc a = true ∧ ¬ sat J (a.formula.replacePlaceholders t.phMap) ρ)))) :=
+              ProducesR t J ∧ ∃ a ∈ S, lBwdConc a = true ∧ ¬ sat J (a.formula.replacePlaceholders t.phMap) ρ)))) :=
   Anthem.external_refutes_spec_ph t S hspec hpo hbyp fuel ps h
 
 /-- what the placeholder reading does: an integer placeholder `n` stands for the numeral that is the
@@ -185,15 +168,9 @@ theorem external_sound_with_outline (t : ExternalTask) (hbyp : t.bypassTightness
             (∀ a ∈ left, lStable a = true → sat J a.formula ρ) ∧
             (∀ a ∈ rightSide t ΓR, a.role = .assumption → sat J a.formula ρ) ∧
             (((t.direction = .universal ∨ t.direction = .forward) ∧
-                (∀ a ∈ left, lFwdPrem a = true → sat J a.formula ρ) ∧
-                ¬ Stable (t.program.substSym (phNu t.phMap J.fc)) t.userGuide.inputs
-                  (restrictTo (ext t.program.preds t.userGuide.inputs)
-                    (renamedInterp (t.specPrivate.filter (· ∈ t.progPrivate)) J.pred)) J.fc) ∨
+                (∀ a ∈ left, lFwdPrem a = true → sat J a.formula ρ) ∧ ¬ ProducesR t J) ∨
              ((t.direction = .universal ∨ t.direction = .backward) ∧
-                Stable (t.program.substSym (phNu t.phMap J.fc)) t.userGuide.inputs
-                  (restrictTo (ext t.program.preds t.userGuide.inputs)
-                    (renamedInterp (t.specPrivate.filter (· ∈ t.progPrivate)) J.pred)) J.fc ∧
-                ∃ a ∈ left, lBwdConc a = true ∧ ¬ sat J a.formula ρ)))) :=
+                ProducesR t J ∧ ∃ a ∈ left, lBwdConc a = true ∧ ¬ sat J a.formula ρ)))) :=
   Outline.external_outline_sound t hbyp fuel ps h
 
 /-- which annotated formulas of a specification play which part (read off `assemble`) -/
@@ -218,7 +195,7 @@ theorem cannot_produce_public_part (t : ExternalTask) (fuel : Nat) (ΓR : Theory
         ∀ (q : String) (ds : List Dom), (⟨q, ds.length⟩ : Pred) ∉ t.progPrivate →
           (T' q ds ↔ restrictTo (ext t.program.preds t.userGuide.inputs)
             (renamedInterp (t.specPrivate.filter (· ∈ t.progPrivate)) J.pred) q ds) := by
-  obtain ⟨hΓ, hdefs⟩ := rightSide_private_defs t fuel ΓR hsimp hR J ρ hpriv
+  obtain ⟨Γ, hΓ, hdefs⟩ := rightSide_private_defs t fuel ΓR hsimp hR J ρ hpriv
   have hp : globalsPanic t.program = false := (theoryTranslate_ok t fuel t.program ΓR hR).1
   -- applicability facts from the checks
   have hperr : programError t t.program t.progPrivate = none := by
@@ -241,7 +218,7 @@ theorem cannot_produce_public_part (t : ExternalTask) (fuel : Nat) (ΓR : Theory
     unfold UserGuide.publicPreds
     exact mem_ext.mpr (Or.inl hin)
   exact not_congr (stable_iff_some_stable_same_public t.program t.userGuide.inputs t.progPrivate htR' hp hinsR hrec hsub
-    ΓR hΓ _ J.fc ρ hdefs)
+    Γ hΓ _ J.fc ρ hdefs)
 
 /-- number of emitted problems for a task (0 when refused) -/
 def emitted (t : ExternalTask) (fuel : Nat) : Nat :=
@@ -258,11 +235,12 @@ def missingOutputTask (dir : Direction) : ExternalTask :=
     decomposition := .sequential, direction := dir, rep := .tauStar
     bypassTightness := false, simplify := false, breakEq := false }
 
-/-- **Counterexample 1 (known finding).** The left program derives `p(1)`, the right one never
-    derives any `p` atom, so they differ on the output predicate — but the forward direction emits
-    *no problem at all* (nothing to prove, vacuous success), because `p/1` does not occur in the
-    right program and therefore receives no completed definition. -/
-theorem external_counterexample_missing_output : emitted (missingOutputTask .forward) 8 = 0 := by
+/-- **Repaired defect (fix 82641ae).** The left program derives `p(1)`, the right one never derives
+    any `p` atom, so they differ on the output predicate. Before the repair the forward direction
+    emitted *no problem at all* (vacuous success), because `p/1` does not occur in the right program
+    and received no completed definition; now `p/1` is completed to false on that side and the
+    forward direction has `forall V1 (p(V1) <-> #false)` as its conjecture (one problem; two with eq-break). -/
+theorem missing_output_now_refutable : emitted (missingOutputTask .forward) 8 = 1 := by
   decide
 
 /-- the task with private `q/1` on the left and private `q/1`, `q_p/1` on the right -/
